@@ -211,7 +211,7 @@ def print_assumptions(module: str, theorems, extra_Q=()):
             res[th] = []
         else:
             axs = re.findall(r"^([A-Za-z_][\w.']*)\s*:", body, re.M)
-            res[th] = sorted(set(axs))
+            res[th] = sorted(set(a for a in axs if a != "Axioms"))
     for ext in (".vo", ".glob", ".vok", ".vos"):
         try:
             f.with_suffix(ext).unlink()
